@@ -63,6 +63,7 @@ func c01Compose(c *Ctx) {
 	}
 	outerExec := ev.Param(fn, "outerExec")
 	complete := map[int]int{}
+	leafTargets := map[*ssa.Function]bool{}
 	bad := 0
 	for _, p := range paths {
 		if p.Exit == ExitPanic {
@@ -70,13 +71,18 @@ func c01Compose(c *Ctx) {
 		}
 		var toExec, apply []*Event
 		var final *Event
+		var leafTerm *T // the leaf handed to the innermost Apply, or (no policies) the function invoked directly
 		for _, e := range p.Events() {
 			switch {
 			case isCall(e, "ToExecutor"):
 				toExec = append(toExec, e)
 			case isCall(e, "Apply"):
+				if len(apply) == 0 && len(e.Args) == 1 && e.Args[0].Op == "closure" {
+					leafTerm = e.Args[0]
+				}
 				apply = append(apply, e)
-			case e.Kind == EvCall && e.FnTerm != nil && len(e.Args) == 1 && e.Args[0] == outerExec && loadedField(e.FnTerm) == "":
+			case e.Kind == EvCall && len(e.Args) == 1 && e.Args[0] == outerExec && ((e.FnTerm != nil && loadedField(e.FnTerm) == "") ||
+				(e.FnTerm == nil && e.Fn != nil && c.P.TargetOf(e.Fn) != origin(e.Fn))):
 				if final != nil {
 					bad++
 					c.Fail(c.fn(fn)+"#invoke-once", c.P.Pos(e.Instr.Pos()), "the composed function is invoked more than once", pathTrace(ev, p))
@@ -145,7 +151,7 @@ func c01Compose(c *Ctx) {
 			continue
 		}
 		if len(toExec) == 0 {
-			if final.FnTerm.Op != "closure" {
+			if !(final.FnTerm != nil && final.FnTerm.Op == "closure") && !(final.FnTerm == nil && final.Fn != nil && c.P.TargetOf(final.Fn) != origin(final.Fn)) {
 				fail("with no policies the leaf function is not what is invoked")
 				continue
 			}
@@ -164,6 +170,17 @@ func c01Compose(c *Ctx) {
 			continue
 		}
 		complete[len(toExec)]++
+		if leafTerm != nil {
+			leafTargets[c.P.TargetOf(leafTerm.Fn)] = true
+		} else if final.FnTerm != nil {
+			leafTargets[c.P.TargetOf(final.FnTerm.Fn)] = true
+		} else {
+			leafTargets[c.P.TargetOf(final.Fn)] = true
+		}
+	}
+	if bad == 0 && len(leafTargets) != 1 {
+		bad++
+		c.Fail(c.fn(fn)+"#one-leaf", c.P.FuncPos(fn), fmt.Sprintf("the function wrapped by the innermost policy and the function run when there are no policies differ (%d distinct leaves)", len(leafTargets)), "")
 	}
 	c.Count("paths", len(paths))
 	if bad == 0 {
@@ -177,12 +194,29 @@ func c01Compose(c *Ctx) {
 	}
 }
 
+// leafFunction: the function execute hands to the innermost policy's Apply (a closure or a bound method).
+func leafFunction(c *Ctx) *ssa.Function {
+	fn := c.P.Func("failsafe.(*executor).execute")
+	if fn == nil {
+		return nil
+	}
+	ev := NewEvaluator(c.P, EvalConfig{})
+	for _, p := range ev.Run(fn) {
+		for _, e := range p.Events() {
+			if isCall(e, "Apply") && len(e.Args) == 1 && e.Args[0].Op == "closure" {
+				return c.P.TargetOf(e.Args[0].Fn)
+			}
+		}
+	}
+	return nil
+}
+
 // ---- C01.leaf ------------------------------------------------------------------------------------------
 
 func c01Leaf(c *Ctx) {
 	c.Rule("leaf")
 	fn := c.P.Func("failsafe.(*executor).execute")
-	if fn == nil || len(fn.AnonFuncs) == 0 {
+	if fn == nil {
 		c.Unresolved("failsafe.(*executor).execute$1", "leaf closure not found")
 		return
 	}
@@ -202,9 +236,14 @@ func c01Leaf(c *Ctx) {
 		c.Unresolved("failsafe.(*executor).execute$1", "no closure is passed to the innermost Apply")
 		return
 	}
-	name := c.fn(leaf.Fn)
-	pos := c.P.FuncPos(leaf.Fn)
+	leafFn := c.P.TargetOf(leaf.Fn)
+	name := "failsafe.(*executor).execute$1" // the leaf, however it is written (closure or bound method)
+	pos := c.P.FuncPos(leafFn)
 	userFn := ev.Param(fn, "fn")
+	if len(leaf.Fn.Params) != 1 {
+		c.Unresolved(name, "the leaf function does not take exactly the execution")
+		return
+	}
 	exec := ev.TS.intern(&T{Op: "param", Aux: "exec", Typ: leaf.Fn.Params[0].Type()})
 	paths := ev.CallTerm(st, leaf, []*T{exec})
 	if ev.Err != nil || len(paths) == 0 {
